@@ -323,7 +323,21 @@ func c09Rebase(c *Ctx) {
 			return f2 != nil && f2.Name() == "Offset"
 		}), R, "origin:baseOffset = smallest CRYPTO offset popped", c.P.InstrPos(in), "the base offset handed to the builder is taken from the popped CRYPTO frames")
 		site := in
-		c.cut(R, "pair:datagram index advanced after building", &Cut{Fn: m, Start: func(i ssa.Instruction) bool { return i == site }, Target: isReturn, Barrier: StoresTo(idx)}, "each call builds the next datagram")
+		// the increment follows the call, or was deferred before it (a deferred closure that stores the index, in a block
+		// that dominates the call: it runs at every return)
+		deferred := false
+		eachInstr(m, func(i ssa.Instruction) {
+			if d, ok := i.(*ssa.Defer); ok {
+				if mc, ok := d.Call.Value.(*ssa.MakeClosure); ok && storesField(mc.Fn.(*ssa.Function), idx) && dominatedByBlock(site.Block(), d.Block()) {
+					deferred = true
+				}
+			}
+		})
+		if deferred {
+			c.OK(R, "pair:datagram index advanced after building", c.P.InstrPos(site), "deferred increment dominates the call")
+		} else {
+			c.cut(R, "pair:datagram index advanced after building", &Cut{Fn: m, Start: func(i ssa.Instruction) bool { return i == site }, Target: isReturn, Barrier: StoresTo(idx)}, "each call builds the next datagram")
+		}
 	}
 	c.Floor(R, "BuildForDatagram calls", n, 1)
 }
